@@ -1000,6 +1000,10 @@ func localFresh(info *types.Info, decl *ast.FuncDecl, v *types.Var) bool {
 						if fid, ok := r.Fun.(*ast.Ident); ok && (fid.Name == "make" || fid.Name == "new" || fid.Name == "append") {
 							fresh = true
 						}
+						// the result of a moq function every return of which hands out a slice it made itself
+						if stripProg != nil && returnsFreshSlice(stripProg, info, r) {
+							fresh = true
+						}
 					case *ast.CompositeLit:
 						fresh = true
 					}
@@ -1015,6 +1019,49 @@ func localFresh(info *types.Info, decl *ast.FuncDecl, v *types.Var) bool {
 		return true
 	})
 	return fresh
+}
+
+// returnsFreshSlice: the call is of a moq function (generic helpers included) whose every return hands out a
+// local that the function itself made (make, a literal, nil grown by append).
+func returnsFreshSlice(prog *load.Program, info *types.Info, call *ast.CallExpr) bool {
+	fn, _ := typeutil.Callee(info, call).(*types.Func)
+	if fn == nil || !prog.IsMoqPkg(fn.Pkg()) {
+		return false
+	}
+	d := prog.Decl(fn.Origin())
+	if d == nil || d.Body == nil {
+		return false
+	}
+	cinfo := prog.Info(fn.Pkg())
+	okAll, n := true, 0
+	ast.Inspect(d.Body, func(x ast.Node) bool {
+		if _, isLit := x.(*ast.FuncLit); isLit {
+			return false
+		}
+		rs, ok := x.(*ast.ReturnStmt)
+		if !ok {
+			return true
+		}
+		n++
+		if len(rs.Results) != 1 {
+			okAll = false
+			return true
+		}
+		id, ok := ast.Unparen(rs.Results[0]).(*ast.Ident)
+		if !ok {
+			okAll = false
+			return true
+		}
+		if _, isNil := cinfo.Uses[id].(*types.Nil); isNil {
+			return true
+		}
+		v, _ := cinfo.ObjectOf(id).(*types.Var)
+		if v == nil || !localFresh(cinfo, d, v) {
+			okAll = false
+		}
+		return true
+	})
+	return okAll && n > 0
 }
 
 // sliceOfStripped: every append into the slice variable adds a stripped key.
